@@ -14,20 +14,26 @@ import (
 	"rjverif/internal/machine"
 	"rjverif/internal/product"
 	"rjverif/internal/scan"
+	"rjverif/internal/sibling"
 )
 
 // Ctx caches the models shared by several properties during one run.
 type Ctx struct {
-	W        *core.World
-	Tier     string
-	machines map[string]*machine.Machine
-	mlist    []*machine.Machine
-	composed map[string]*lts.LTS
-	compProb map[string][]machine.Problem
-	scans    map[string]*scan.Result
-	flat     map[string]*lts.LTS
-	flatProb map[string][]string
-	engine   *scan.Engine
+	W         *core.World
+	Tier      string
+	machines  map[string]*machine.Machine
+	mlist     []*machine.Machine
+	composed  map[string]*lts.LTS
+	compProb  map[string][]machine.Problem
+	scans     map[string]*scan.Result
+	flat      map[string]*lts.LTS
+	flatProb  map[string][]string
+	engine    *scan.Engine
+	postCache map[*ssa.Function][]slicePost
+	fieldNN   map[interface{}]bool
+	sibRep    *sibling.SSAReport
+	sibErr    error
+	sibDone   bool
 }
 
 func NewCtx(w *core.World, tier string) *Ctx {
@@ -302,4 +308,13 @@ func (x *Ctx) bisim(r *core.Result, rs *core.RuleStat, what string, impl, ref *l
 	r.States += len(st.ImplStates)
 	r.Trans += st.Cells
 	return st
+}
+
+// Sibling: the co-execution comparison of internal/fp with strconv (once per run).
+func (x *Ctx) Sibling() (*sibling.SSAReport, error) {
+	if !x.sibDone {
+		x.sibRep, x.sibErr = sibling.CompareSSA(x.W)
+		x.sibDone = true
+	}
+	return x.sibRep, x.sibErr
 }
